@@ -201,6 +201,11 @@ fn o_c16_disabled(h: &Hist) -> Vec<Viol> {
     if !extra.is_empty() {
         out.push(Viol { prop: "C16", sig: "disabled:thread-spawned".into(), msg: format!("threads {:?} exist after the case; a disabled build must not spawn any", extra) });
     }
+    // threads that were created and already joined again (e.g. by flush()) leave no trace in
+    // /proc: count them through the process-wide ThreadId counter
+    if h.thread_ids_used != h.threads_spawned_by_harness {
+        out.push(Viol { prop: "C16", sig: "disabled:thread-created".into(), msg: format!("{} OS threads were created during the case, the harness itself spawned {}: a build without the enable feature must not create threads", h.thread_ids_used, h.threads_spawned_by_harness) });
+    }
     out.extend(oracle::c07(h).into_iter().map(|mut v| {
         v.prop = "C16";
         v
